@@ -3,40 +3,13 @@ namespace Dcg.Gen.EscTables
 
 def enumTable : List (Char × List Char) :=
   [(Char.ofNat 0, [Char.ofNat 92, Char.ofNat 120, Char.ofNat 48, Char.ofNat 48]),
-   (Char.ofNat 1, [Char.ofNat 92, Char.ofNat 120, Char.ofNat 49]),
-   (Char.ofNat 2, [Char.ofNat 92, Char.ofNat 120, Char.ofNat 50]),
-   (Char.ofNat 3, [Char.ofNat 92, Char.ofNat 120, Char.ofNat 51]),
-   (Char.ofNat 4, [Char.ofNat 92, Char.ofNat 120, Char.ofNat 52]),
-   (Char.ofNat 5, [Char.ofNat 92, Char.ofNat 120, Char.ofNat 53]),
-   (Char.ofNat 6, [Char.ofNat 92, Char.ofNat 120, Char.ofNat 54]),
-   (Char.ofNat 7, [Char.ofNat 92, Char.ofNat 120, Char.ofNat 55]),
-   (Char.ofNat 8, [Char.ofNat 92, Char.ofNat 98]),
-   (Char.ofNat 9, [Char.ofNat 92, Char.ofNat 116]),
-   (Char.ofNat 10, [Char.ofNat 92, Char.ofNat 110]),
-   (Char.ofNat 11, [Char.ofNat 92, Char.ofNat 120, Char.ofNat 98]),
-   (Char.ofNat 12, [Char.ofNat 92, Char.ofNat 102]),
-   (Char.ofNat 13, [Char.ofNat 92, Char.ofNat 114]),
-   (Char.ofNat 14, [Char.ofNat 92, Char.ofNat 120, Char.ofNat 101]),
-   (Char.ofNat 15, [Char.ofNat 92, Char.ofNat 120, Char.ofNat 102]),
-   (Char.ofNat 16, [Char.ofNat 92, Char.ofNat 120, Char.ofNat 49, Char.ofNat 48]),
-   (Char.ofNat 17, [Char.ofNat 92, Char.ofNat 120, Char.ofNat 49, Char.ofNat 49]),
-   (Char.ofNat 18, [Char.ofNat 92, Char.ofNat 120, Char.ofNat 49, Char.ofNat 50]),
-   (Char.ofNat 19, [Char.ofNat 92, Char.ofNat 120, Char.ofNat 49, Char.ofNat 51]),
-   (Char.ofNat 20, [Char.ofNat 92, Char.ofNat 120, Char.ofNat 49, Char.ofNat 52]),
-   (Char.ofNat 21, [Char.ofNat 92, Char.ofNat 120, Char.ofNat 49, Char.ofNat 53]),
-   (Char.ofNat 22, [Char.ofNat 92, Char.ofNat 120, Char.ofNat 49, Char.ofNat 54]),
-   (Char.ofNat 23, [Char.ofNat 92, Char.ofNat 120, Char.ofNat 49, Char.ofNat 55]),
-   (Char.ofNat 24, [Char.ofNat 92, Char.ofNat 120, Char.ofNat 49, Char.ofNat 56]),
-   (Char.ofNat 25, [Char.ofNat 92, Char.ofNat 120, Char.ofNat 49, Char.ofNat 57]),
-   (Char.ofNat 26, [Char.ofNat 92, Char.ofNat 120, Char.ofNat 49, Char.ofNat 97]),
-   (Char.ofNat 27, [Char.ofNat 92, Char.ofNat 120, Char.ofNat 49, Char.ofNat 98]),
-   (Char.ofNat 28, [Char.ofNat 92, Char.ofNat 120, Char.ofNat 49, Char.ofNat 99]),
-   (Char.ofNat 29, [Char.ofNat 92, Char.ofNat 120, Char.ofNat 49, Char.ofNat 100]),
-   (Char.ofNat 30, [Char.ofNat 92, Char.ofNat 120, Char.ofNat 49, Char.ofNat 101]),
-   (Char.ofNat 31, [Char.ofNat 92, Char.ofNat 120, Char.ofNat 49, Char.ofNat 102]),
-   (Char.ofNat 127, [Char.ofNat 92, Char.ofNat 120, Char.ofNat 55, Char.ofNat 102]),
    (Char.ofNat 92, [Char.ofNat 92, Char.ofNat 92]),
-   (Char.ofNat 39, [Char.ofNat 92, Char.ofNat 39])]
+   (Char.ofNat 39, [Char.ofNat 92, Char.ofNat 39]),
+   (Char.ofNat 8, [Char.ofNat 92, Char.ofNat 98]),
+   (Char.ofNat 12, [Char.ofNat 92, Char.ofNat 102]),
+   (Char.ofNat 10, [Char.ofNat 92, Char.ofNat 110]),
+   (Char.ofNat 13, [Char.ofNat 92, Char.ofNat 114]),
+   (Char.ofNat 9, [Char.ofNat 92, Char.ofNat 116])]
 
 def typedDictKeyTable : List (Char × List Char) :=
   [(Char.ofNat 0, [Char.ofNat 92, Char.ofNat 120, Char.ofNat 48, Char.ofNat 48]),
